@@ -705,3 +705,33 @@ pub fn sid_is_bidi(id: u64) -> bool {
 pub fn sid_client_initiated(id: u64) -> bool {
     id & 1 == 0
 }
+
+/// Independent transport-parameter decoder (RFC 9000 §18): returns (id, value bytes) pairs
+pub fn parse_transport_params(b: &[u8]) -> WResult<Vec<(u64, Vec<u8>)>> {
+    let mut r = Rd::new(b);
+    let mut out = vec![];
+    while r.left() > 0 {
+        let id = r.var()?;
+        let len = r.var()? as usize;
+        out.push((id, r.bytes(len)?.to_vec()));
+    }
+    Ok(out)
+}
+
+/// Integer-valued transport parameter (absent => None)
+pub fn tp_int(tps: &[(u64, Vec<u8>)], id: u64) -> Option<u64> {
+    let v = &tps.iter().find(|(i, _)| *i == id)?.1;
+    Rd::new(v).var().ok()
+}
+
+pub const TP_MAX_IDLE: u64 = 0x01;
+pub const TP_MAX_UDP_PAYLOAD: u64 = 0x03;
+pub const TP_MAX_DATA: u64 = 0x04;
+pub const TP_MSD_BIDI_LOCAL: u64 = 0x05;
+pub const TP_MSD_BIDI_REMOTE: u64 = 0x06;
+pub const TP_MSD_UNI: u64 = 0x07;
+pub const TP_MAX_STREAMS_BIDI: u64 = 0x08;
+pub const TP_MAX_STREAMS_UNI: u64 = 0x09;
+pub const TP_ACTIVE_CID_LIMIT: u64 = 0x0e;
+pub const TP_MAX_DATAGRAM: u64 = 0x20;
+pub const TP_MIN_ACK_DELAY: u64 = 0xff04de1b;
